@@ -62,21 +62,113 @@ def scene_canon(scene):
     return dict(objects=objs, params={k: canon(v) for k, v in scene.params.items()})
 
 
+class _Stop(Exception):
+    pass
+
+
+class _NoValues(dict):
+    """Table handed to deserializeValue while probing: the decoder's reads are recorded, then the first
+    access to a value (sampleGiven) stops the probe before anything is computed or drawn."""
+
+    def __getitem__(self, k):
+        raise _Stop
+
+    def __contains__(self, k):
+        raise _Stop
+
+    def get(self, k, d=None):
+        raise _Stop
+
+
+class _Probe:
+    """Stands in for the Serializer: records the codec calls one samplable makes for itself (which
+    children it hands to writeSamplable / readSamplable, which value types it writes / reads) without
+    recursing.  This is how the exporter OBSERVES the encoder's and the decoder's dependency walks
+    instead of reading `_conditioned._dependencies` the way the code is believed to."""
+
+    def __init__(self):
+        self.ops = []
+
+    def writeSamplable(self, obj, values):
+        self.ops.append(("S", obj))
+
+    def readSamplable(self, obj, values):
+        self.ops.append(("S", obj))
+
+    def writeValue(self, value, ty):
+        self.ops.append(("V", ty))
+
+    def readValue(self, ty):
+        self.ops.append(("V", ty))
+        raise _Stop
+
+
+def probe_walks(obj, values):
+    enc, dec = _Probe(), _Probe()
+    st, nst = random.getstate(), numpy.random.get_state()
+    try:
+        try:
+            obj.serializeValue(values, enc)
+        except BaseException:
+            pass
+        try:
+            obj.deserializeValue(dec, _NoValues())
+        except BaseException:
+            pass
+    finally:
+        random.setstate(st)
+        numpy.random.set_state(nst)
+    return enc.ops, dec.ops
+
+
+def kind_letter(o):
+    if not needsSampling(o):
+        return "F"
+    if isinstance(o, MultiplexerDistribution):
+        return "M"
+    if isinstance(o, Distribution) and not o._deterministic:
+        return "P"
+    return "D"
+
+
 def export_nodes(roots, sample, with_values=True):
-    """Walk the object graph the codec walks from the given roots; fail closed on anything not understood."""
+    """Walk the object graph the codec walks from the given roots; fail closed on anything not understood.
+    Deterministic nodes carry TWO dependency lists: the one serializeValue walks and the one
+    deserializeValue walks (observed with a probe).  `cg` gives, per node, its own dependency list and its
+    conditioned proxy's (attributes), for the model's code_view."""
     index = {}
     nodes = []
+    cg = []
     pvals = {}
     unsupported = []
+    stats = dict(cond=[], random_proxy=False, cond_mux=False)
+
+    def add(obj, node, own=None, proxy=None):
+        index[id(obj)] = len(nodes)
+        nodes.append(node)
+        cg.append([own if own is not None else node, proxy])
+        return index[id(obj)]
+
+    def proxy_of(obj):
+        c = getattr(obj, "_conditioned", obj)
+        if c is obj:
+            return None
+        stats["cond"].append(kind_letter(obj) + ">" + kind_letter(c) + ":" + type(obj).__name__ + ">" + type(c).__name__)
+        if kind_letter(obj) == "M":
+            stats["cond_mux"] = True
+        elif kind_letter(obj) == "D" and kind_letter(c) == "P":
+            stats["random_proxy"] = True
+        return [visit(d) for d in c._dependencies]
 
     def visit(obj):
         k = id(obj)
         if k in index:
             return index[k]
         if not needsSampling(obj):
-            index[k] = len(nodes)
-            nodes.append(["F"])
-            return index[k]
+            return add(obj, ["F"])
+        if isinstance(obj, MultiplexerDistribution) and (type(obj).serializeValue is not MultiplexerDistribution.serializeValue
+                                                         or type(obj).deserializeValue is not MultiplexerDistribution.deserializeValue):
+            unsupported.append("override:" + type(obj).__name__)
         if isinstance(obj, MultiplexerDistribution) and not needsSampling(obj.index):
             # index already known (always the case at run time, where the selector was drawn on its own):
             # the codec writes nothing for it and then the chosen option only
@@ -86,62 +178,38 @@ def export_nodes(roots, sample, with_values=True):
                 unsupported.append("mux-const-index-out-of-range")
                 choice = None
             deps_ = [visit(choice)] if choice is not None else []
-            index[k] = len(nodes)
-            nodes.append(["D", deps_])
-            return index[k]
+            return add(obj, ["D", deps_, deps_], proxy=proxy_of(obj))
         if isinstance(obj, MultiplexerDistribution):
             ix = visit(obj.index)
             opts = [visit(o) for o in obj.options]
-            index[k] = len(nodes)
-            nodes.append(["M", ix, opts])
-            return index[k]
-        if isinstance(obj, Distribution) and not obj._deterministic:
-            ty = TYNAMES.get(obj._valueType)
-            if ty is None:
-                unsupported.append(type(obj).__name__ + ":" + getattr(obj._valueType, "__name__", str(obj._valueType)))
-                ty = "none"
-            if type(obj).serializeValue is not Distribution.serializeValue:
-                unsupported.append("override:" + type(obj).__name__)
-            index[k] = len(nodes)
-            nodes.append(["P", ty])
-            if with_values and obj in sample:
-                pvals[index[k]] = enc_val(ty, sample[obj])
-            return index[k]
-        if type(obj).serializeValue not in (Samplable.serializeValue, Distribution.serializeValue) and not mutation_seed_codec(obj):
+            return add(obj, ["M", ix, opts], proxy=proxy_of(obj))
+        if type(obj).serializeValue not in (Samplable.serializeValue, Distribution.serializeValue) or \
+                type(obj).deserializeValue not in (Samplable.deserializeValue, Distribution.deserializeValue):
             unsupported.append("override:" + type(obj).__name__)
-        deps = [visit(d) for d in obj._conditioned._dependencies]
-        extra = mutation_seed_node(obj, sample, nodes, pvals) if with_values else None
-        if extra is not None:
-            deps.append(extra)
-        index[k] = len(nodes)
-        nodes.append(["D", deps])
-        return index[k]
+        eops, dops = probe_walks(obj, sample)
+        if len(eops) == 1 and eops[0][0] == "V":
+            ty = TYNAMES.get(eops[0][1])
+            if ty is None:
+                unsupported.append(type(obj).__name__ + ":" + getattr(eops[0][1], "__name__", str(eops[0][1])))
+                ty = "none"
+            if dops != eops:
+                unsupported.append("asymmetric-primitive:" + type(obj).__name__)
+            i = add(obj, ["P", ty], proxy=proxy_of(obj))
+            if with_values and obj in sample:
+                pvals[i] = enc_val(ty, sample[obj])
+            return i
+        if any(op[0] != "S" for op in eops + dops):
+            unsupported.append("mixed-codec:" + type(obj).__name__)
+        edeps = [visit(op[1]) for op in eops if op[0] == "S"]
+        ddeps = [visit(op[1]) for op in dops if op[0] == "S"]
+        own = [visit(d) for d in obj._dependencies]
+        return add(obj, ["D", edeps, ddeps], own=["D", own, own], proxy=proxy_of(obj))
 
     sys.setrecursionlimit(10000)
     deps = [visit(o) for o in roots]
-    return nodes, pvals, deps, unsupported
-
-
-def mutation_seed_codec(obj):
-    """True when obj's class uses the repaired Point codec (fix-C18-mutation-roundtrip): the dependencies
-    followed, for a mutated object, by the integer seed all its mutation noise is derived from."""
-    from scenic.core.object_types import Point
-    return isinstance(obj, Point) and type(obj).serializeValue is getattr(Point, "serializeValue", None) \
-        and hasattr(Point, "_sampleGivenWithMutationSeed")
-
-
-def mutation_seed_node(obj, sample, nodes, pvals):
-    if not mutation_seed_codec(obj):
-        return None
-    if sample[obj._conditioned.mutationScale] == 0:
-        return None
-    try:
-        seed = object.__getattribute__(sample[obj], "_mutationSeed")
-    except AttributeError:
-        return None
-    nodes.append(["P", "int"])
-    pvals[len(nodes) - 1] = ["I", str(int(seed))]
-    return len(nodes) - 1
+    stats["ncond"] = len(stats["cond"])
+    stats["cond"] = sorted(set(stats["cond"]))
+    return nodes, pvals, deps, unsupported, cg, stats
 
 
 def export_dag(scenario, sample):
@@ -176,30 +244,52 @@ def outcome_of(f):
         return "other:" + type(e).__name__, traceback.format_exc()[-600:]
 
 
-def do_program(job):
-    src = job["src"]
-    res = dict(name=job.get("name"))
-    random.seed(job["seed"])
-    numpy.random.seed(job["seed"])
-    try:
-        scenario = scenic.scenarioFromString(src, mode2D=job.get("mode2D", False))
-        scene, _ = scenario.generate(maxIterations=200, verbosity=0)
-    except BaseException as e:
-        res["skip"] = type(e).__name__ + ": " + str(e)[:200]
-        return res
-    data = scenario.sceneToBytes(scene)
-    res["bytes"] = data.hex()
+def build_condition(scenario, ref, st):
+    """kwargs for Scenario.conditionOn from a stage description (objects: indices into the scenario's objects,
+    params: name -> ['const', value] | ['expr', <expression over scenic.core.distributions>])."""
+    import scenic.core.distributions as D
+    ns = {k: getattr(D, k) for k in ("Range", "DiscreteRange", "Uniform", "Options", "Normal", "TruncatedNormal")}
+    kw = {}
+    objs = tuple(i for i in st.get("objects", []) if i < len(scenario.objects))
+    if objs:
+        kw["objects"] = objs
+        kw["scene"] = ref
+    params = {}
+    for name, spec in st.get("params", {}).items():
+        if name not in scenario.params:
+            continue
+        params[name] = spec[1] if spec[0] == "const" else eval(spec[1], dict(ns))
+    if params:
+        kw["params"] = params
+    return kw
+
+
+def scene_checks(scenario, scene, job, stage, src, light=False):
+    res = dict(name=job.get("name") + "#" + stage, job_name=job.get("name"), stage=stage)
+    oc, data = outcome_of(lambda: scenario.sceneToBytes(scene))
+    nodes, pvals, deps, unsupported, cg, stats = export_dag(scenario, scene.sample)
+    res["dag"] = dict(nodes=nodes, pvals=pvals, deps=deps, unsupported=unsupported, cg=cg)
+    res["cond"] = stats
     res["header"] = dict(version=Serializer.sceneFormatVersion(), ast=scenario.astHash.hex(),
                          opts=scenario.compileOptions.hash.hex())
-    nodes, pvals, deps, unsupported = export_dag(scenario, scene.sample)
-    res["dag"] = dict(nodes=nodes, pvals=pvals, deps=deps, unsupported=unsupported)
+    res["encode_outcome"] = oc
+    res["mutated"] = [i for i, o in enumerate(scene.objects) if getattr(o, "mutationScale", 0) != 0]
+    if oc != "ok":
+        res["encode_info"] = data
+        return res
+    res["bytes"] = data.hex()
     # property oracle: decode gives the same scene
     before = scene_canon(scene)
     oc, scene2 = outcome_of(lambda: scenario.sceneFromBytes(data))
     res["roundtrip_outcome"] = oc
-    res["mutated"] = [i for i, o in enumerate(scene.objects) if getattr(o, "mutationScale", 0) != 0]
     after = scene_canon(scene2) if oc == "ok" else None
     res["roundtrip_equal"] = (oc == "ok" and after == before)
+    if oc == "ok":
+        # the decoded scene encodes to the same bytes, and decoding twice gives the same scene
+        oc2, data2 = outcome_of(lambda: scenario.sceneToBytes(scene2))
+        res["reencode_equal"] = (oc2 == "ok" and data2 == data)
+        oc3, scene3 = outcome_of(lambda: scenario.sceneFromBytes(data))
+        res["redecode_equal"] = (oc3 == "ok" and scene_canon(scene3) == after)
     if oc == "ok" and not res["roundtrip_equal"]:
         diffs = []
         for i, (a, b) in enumerate(zip(before["objects"], after["objects"])):
@@ -215,7 +305,12 @@ def do_program(job):
     # truncations
     n = len(data)
     big = n > 5000   # huge payloads (70 kB strings): fewer cuts/corruptions, every one costs a full decode on both sides
-    max_cuts = min(job.get("max_cuts", 400), 40) if big else job.get("max_cuts", 400)
+    max_cuts = job.get("max_cuts", 400)
+    npos = job.get("npos", 60)
+    if light:
+        max_cuts, npos = min(max_cuts, 60), min(npos, 16)
+    if big:
+        max_cuts, npos = min(max_cuts, 40), min(npos, 12)
     cuts = list(range(n)) if n <= max_cuts else sorted(random.Random(job["seed"]).sample(range(n), max_cuts))
     trunc = []
     for c in cuts:
@@ -226,10 +321,9 @@ def do_program(job):
     # single-byte corruptions
     rr = random.Random(job["seed"] + 1)
     corr = []
-    npos = min(job.get("npos", 60), 12) if big else job.get("npos", 60)
     poss = list(range(n)) if n <= npos else sorted(rr.sample(range(n), npos))
     for pos in poss:
-        alts = range(256) if n <= 24 else rr.sample(range(256), job.get("alts", 6))
+        alts = range(256) if n <= 24 and not light else rr.sample(range(256), job.get("alts", 6))
         for b in alts:
             if b == data[pos]:
                 continue
@@ -238,7 +332,9 @@ def do_program(job):
             corr.append([pos, b, oc] + ([info] if info and oc != "ok" else []))
     res["corrupt"] = [[c[0], c[1], c[2]] for c in corr]
     res["corrupt_info"] = [c for c in corr if len(c) > 3][:3]
-    # refused for a different program / options
+    if light:
+        return res
+    # refused for a different program / options; accepted by a fresh compilation of the same program
     try:
         other = scenic.scenarioFromString(src + "\nparam verif_extra = 1\n", mode2D=job.get("mode2D", False))
         res["other_program"] = outcome_of(lambda: other.sceneFromBytes(data))[0]
@@ -246,10 +342,54 @@ def do_program(job):
         res["other_options"] = outcome_of(lambda: other2.sceneFromBytes(data))[0]
     except BaseException as e:
         res["other_program"] = res.get("other_program", "compile-failed:" + type(e).__name__)
-    # simulation replay
-    if job.get("dynamic"):
-        res["replay"] = do_replay(scenario, scene, job)
+    if job.get("fresh_compile"):
+        # the same program compiled again (pruning conditions its positions again): decodes to the same scene
+        try:
+            st, nst = random.getstate(), numpy.random.get_state()
+            same = scenic.scenarioFromString(src, mode2D=job.get("mode2D", False))
+            random.setstate(st)
+            numpy.random.set_state(nst)
+            oc, scene4 = outcome_of(lambda: same.sceneFromBytes(data))
+            res["fresh_outcome"] = oc
+            res["fresh_equal"] = oc == "ok" and scene_canon(scene4) == before
+        except BaseException as e:
+            res["fresh_outcome"] = "compile-failed:" + type(e).__name__
     return res
+
+
+def do_program(job):
+    """All results of one program: the plain scenario, then one result per conditioning stage (the SAME
+    scenario object conditioned again and again), replay on the last scene."""
+    src = job["src"]
+    random.seed(job["seed"])
+    numpy.random.seed(job["seed"])
+    try:
+        scenario = scenic.scenarioFromString(src, mode2D=job.get("mode2D", False))
+        scene, _ = scenario.generate(maxIterations=job.get("max_iterations", 200), verbosity=0)
+    except BaseException as e:
+        return [dict(name=job.get("name") + "#plain", job_name=job.get("name"), stage="plain",
+                     skip=type(e).__name__ + ": " + str(e)[:200])]
+    out = [scene_checks(scenario, scene, job, "plain", src)]
+    for k, st in enumerate(job.get("condition", [])):
+        stage = "cond%d" % k
+        try:
+            kw = build_condition(scenario, scene, st)
+            if not kw:
+                continue
+            scenario.conditionOn(**kw)
+            for rep in range(st.get("scenes", 1)):
+                scene, _ = scenario.generate(maxIterations=job.get("max_iterations", 200), verbosity=0)
+                r = scene_checks(scenario, scene, job, stage + ("" if rep == 0 else ".%d" % rep), src, light=True)
+                r["condition"] = dict(objects=list(kw.get("objects", ())), params=sorted(kw.get("params", {})))
+                out.append(r)
+        except BaseException as e:
+            out.append(dict(name=job.get("name") + "#" + stage, job_name=job.get("name"), stage=stage,
+                            skip="condition:" + type(e).__name__ + ": " + str(e)[:200]))
+            break
+    # simulation replay (of the last scene: after conditioning if the job conditions)
+    if job.get("dynamic") and "bytes" in out[-1]:
+        out[-1]["replay"] = do_replay(scenario, scene, job)
+    return out
 
 
 def sim_canon(sim):
@@ -274,14 +414,14 @@ class LogSimulation(DummySimulation):
         super().__init__(scene, **kwargs)
 
     def replaySampledValue(self, dist, values):
-        nodes, _, deps, unsup = export_nodes([dist], values, with_values=False)
+        nodes, _, deps, unsup, _cg, _st = export_nodes([dist], values, with_values=False)
         ev = dict(k="D", nodes=nodes, root=deps[0], pvals={}, replayed=True, unsupported=unsup)
         self._vlog.append(ev)
         self._pending = (dist, ev)
         return super().replaySampledValue(dist, values)
 
     def recordSampledValue(self, dist, values):
-        nodes, pvals, deps, unsup = export_nodes([dist], values)
+        nodes, pvals, deps, unsup, _cg, _st = export_nodes([dist], values)
         if self._pending is not None and self._pending[0] is dist:
             ev = self._pending[1]
         else:
@@ -486,9 +626,9 @@ def main():
         results = []
         for p in job["programs"]:
             try:
-                results.append(do_program(p))
+                results += do_program(p)
             except BaseException as e:
-                results.append(dict(name=p.get("name"), crash=traceback.format_exc()[-1500:]))
+                results.append(dict(name=p.get("name") + "#plain", job_name=p.get("name"), stage="plain", crash=traceback.format_exc()[-1500:]))
         print(json.dumps(dict(results=results)))
     elif job["kind"] == "codec":
         print(json.dumps(dict(results=do_codec(job))))
